@@ -72,7 +72,48 @@ def fmt_directives(fmt):
     return out
 
 
+def v8_generic_macro(prog, ctx):
+    """V8: econf_setValue() - the generic macro of the public header - hands a value to the typed setter of its own type.  Decided on a
+    witness unit (witness/generic_set.c, one function per documented argument type; compiled by the front end only): the setter clang
+    selects for the argument type must take exactly that type, so that no implicit conversion narrows the value on the way."""
+    import os
+    from sa import facts
+    wit = os.path.join(facts.VERIF, "witness", "generic_set.c")
+    flags = ["-std=gnu11", "-D_GNU_SOURCE", "-I" + os.path.join(prog.repo, "include")]
+    try:
+        raw = facts.extract_unit(wit, flags, os.path.dirname(wit))
+    except Inconclusive as e:
+        ctx.inconclusive("V8", "econf_setValue selects the setter of the argument's type", "include/libeconf.h",
+                         "the witness unit does not compile against the header (a documented argument type lost its association?): %s" % str(e)[-300:])
+        return
+    n = 0
+    for fj in raw.get("functions", []):
+        if not fj["name"].startswith("w_"):
+            continue
+        calls = [x for x in fj["nodes"] if x and x.get("k") == "CallExpr" and (x.get("callee") or "").startswith("econf_set")]
+        want = (fj["params"][1].get("ct") or "").replace("const ", "").strip()
+        if len(calls) != 1:
+            ctx.inconclusive("V8", "econf_setValue(%s)" % want, "include/libeconf.h", "no typed setter selected in the witness %s" % fj["name"])
+            continue
+        n += 1
+        callee = calls[0]["callee"]
+        try:
+            st = prog.fn(callee)
+        except Inconclusive:
+            ctx.inconclusive("V8", "econf_setValue(%s)" % want, "include/libeconf.h", "selected %s is not a function of the library" % callee)
+            continue
+        got = (st.params[-1].get("ct") or "").replace("const ", "").strip()
+        if got == want:
+            ctx.ok("V8", "econf_setValue(%s) selects the setter of that type" % want, st.where, "%s(%s)" % (callee, got))
+        else:
+            ctx.fail("V8", "econf_setValue(%s) selects the setter of that type" % want, "include/libeconf.h:%s" % callee,
+                     "the generic macro sends a `%s` argument to %s(), which takes `%s`: the value is converted silently on the way (an int64_t/uint64_t is "
+                     "`long`/`unsigned long` here) and what is read back is not what was set" % (want, callee, got), key="generic:%s" % want)
+    ctx.floor("C08 generic-macro witnesses", n, 8)
+
+
 def run(prog, ctx):
+    v8_generic_macro(prog, ctx)
     rows = 0
     for sname, gname in conv.SETTERS.items():
         s = prog.fn(sname)
@@ -314,6 +355,17 @@ def run(prog, ctx):
             ctx.obs.append(ob)
     except Inconclusive as e:
         ctx.inconclusive("V6", "set and get find the same entry", "", str(e))
+    # ... and a first set creates the entry it then writes: the append makes room for one more initialised entry, new_key() names it
+    # and leaves it at the index the typed setter is handed (= C11.A5)
+    sub5 = _Ctx(ctx.prop, ctx.tier, prog)
+    try:
+        _C11.a5(prog, sub5)
+        for ob in sub5.obs:
+            ob.rule = "V6"
+            ob.instance = "first set of a key: " + ob.instance
+            ctx.obs.append(ob)
+    except Inconclusive as e:
+        ctx.inconclusive("V6", "first set of a key writes the entry it created", "", str(e))
     # V7: a set that reports success has stored the value: no successful return of a public setter bypasses setKeyValue()
     n7 = 0
     for name in prog.entry_points():
